@@ -146,6 +146,23 @@ Theorem C05_bitflip_in_data_detected : forall recs1 ty p b k q t,
 Proof. exact data_bitflip_detected. Qed.
 Print Assumptions C05_bitflip_in_data_detected.
 
+(* zeroed sectors are instances: frames are 8-byte aligned, so a zeroed range that starts on an 8-byte boundary
+   (a 512-byte sector, or the rest of the sector behind the sync point — both frame-aligned) either wipes the
+   first frame it touches from its length field on (clean end) or leaves that length field intact; in the
+   second case the body is rejected under NoCrcCollision for this image. Exactly the records before that
+   frame are returned, whatever later sectors survived. *)
+Theorem C05_zeroed_range_stops_decoding : forall recs1 x recs2 z off len,
+  Forall enc_ok (recs1 ++ x :: recs2) ->
+  let crc1 := snd (encode_all 0 recs1) in
+  let S1 := blen (fst (encode_all 0 recs1)) in
+  let n := blen (payload_of crc1 x) in
+  let file := fst (encode_all 0 (recs1 ++ x :: recs2)) ++ zeros z in
+  S1 <= off < S1 + blen (frame_of crc1 x) -> off mod 8 = 0 -> 8 <= len -> off + len <= blen file ->
+  (off <> S1 -> accepts crc1 n (btake (n + frame_pad n) (bdrop (S1 + 8) (img_zero off len file))) = false) ->
+  exists v, decode_all [img_zero off len file] = (stored 0 recs1, v, S1) /\ verdict_ok v.
+Proof. exact zeroed_range_stops_decoding. Qed.
+Print Assumptions C05_zeroed_range_stops_decoding.
+
 (* ---------- Repair ---------- *)
 (* on the last file Repair does exactly what the decoder's verdict says: nothing at a clean end, truncate
    at lastValidOff for io.ErrUnexpectedEOF / size limit, refuse otherwise *)
@@ -317,8 +334,8 @@ Print Assumptions C05_two_generation.
    records) with every record saved before that fdatasync inside the prefix.
    Hypotheses beyond well-formedness: the named no_crc_collision_cut for a cut inside a frame body, and the
    preallocated remainder of the segment is 0 or at least 8 bytes (true whenever SegmentSizeBytes is a
-   multiple of 8, as the default is). Missing for the full statement: later segments, zeroed-sector and
-   short-file images, bit flips (refuted in general, see below). *)
+   multiple of 8, as the default is). This theorem also covers ReleaseLockTo inside a first-segment history;
+   histories with any number of segments: C05_cut_image_is_synced_prefix below. *)
 Theorem C05_first_segment_cut_partial : forall opt seg meta ops o c,
   data_ok meta -> Forall op_wf (ops ++ [o]) ->
   let w0 := w_run opt seg meta ops in
@@ -337,6 +354,54 @@ Theorem C05_first_segment_cut_partial : forall opt seg meta ops o c,
   end.
 Proof. exact first_segment_cut. Qed.
 Print Assumptions C05_first_segment_cut_partial.
+
+(* ---------- END TO END, any number of segments ----------
+   The same statement for EVERY history of well-formed Save / SaveSnapshot / Sync operations (no
+   ReleaseLockTo), in either fsync mode, whatever number of cuts it went through — including a cut inside the
+   crashing operation o itself. The crash damages the tail segment only: 'first c bytes, then zeros' for
+   every c behind the tail's last completed fdatasync (synced_off is 0 when that fdatasync went to an earlier
+   segment); the closed segments are as written. The restarting node opens at the zero snapshot, so Open
+   selects every file (proved from the names the writer gave them), ReadAll decodes the crc chain across the
+   files, and Repair — which reads the LAST file alone, with a decoder that starts at crc 0 and adopts the
+   crc record at the head of the file — truncates a torn tail at the last valid record; the second ReadAll
+   then returns effect(prefix), the prefix containing every record saved before the last completed
+   fdatasync, in whichever segment that record lies.
+   Hypotheses beyond well-formedness: the preallocated remainder of the tail is 0 or >= 8 bytes; the named
+   no_crc_collision_cut for a cut inside a frame body (for the stream the tail really holds: quantified over
+   every way of reading the tail as an encoder stream); and, when the history has closed segments, the cut
+   does not fall inside the 16-byte crc record that opens the tail (Repair's lone decoder and ReadAll's
+   chained decoder see that torn frame under different running crcs).
+   Still missing for the full statement: reopen at a saved marker other than the zero snapshot, histories
+   with ReleaseLockTo after a cut, short-file and zeroed-sector images end to end (their decoder theorems are
+   above), bit flips (refuted in general, see below). *)
+Theorem C05_cut_image_is_synced_prefix : forall opt seg meta ops o c,
+  data_ok meta -> Forall op_wf (ops ++ [o]) -> Forall not_release (ops ++ [o]) ->
+  let w0 := w_run opt seg meta ops in
+  let w := w_step w0 o in
+  (w_tailsize w - blen (w_tail w) = 0 \/ 8 <= w_tailsize w - blen (w_tail w)) ->
+  synced_off w0 w <= c -> c <= blen (sg_bytes (tail_file w)) ->
+  (w_closed w <> [] -> 16 <= c) ->
+  (forall c0 recs recs1 x recs2 j, c0 < 2 ^ 32 -> w_tail w = fst (encode_all c0 recs) ->
+     recs = recs1 ++ x :: recs2 ->
+     c = blen (fst (encode_all c0 recs1)) + j -> 8 <= j < blen (frame_of (snd (encode_all c0 recs1)) x) ->
+     no_crc_collision_cut (snd (encode_all c0 recs1)) x j) ->
+  match final_result (reopen (set_last_bytes (w_files w) (img_trunc c)) (Some zero_snap)) with
+  | RAErr _ => True
+  | RAOk _ st ents _ _ =>
+      exists k, synced_recs w0 <= k /\
+                effect zero_snap (firstn (N.to_nat k) (lrecs (ops ++ [o]))) = Some (st, ents)
+  end.
+Proof. exact multi_segment_cut. Qed.
+Print Assumptions C05_cut_image_is_synced_prefix.
+
+(* every file of such a history is described: the closed files are the encoder streams of whole segments
+   (head = crc record carrying the chained crc, metadata, the hard state in force), the tail is the stream of
+   the last one, the logical records of all segments in order are exactly the saved records *)
+Theorem C05_directory_is_described : forall opt seg meta ops,
+  data_ok meta -> Forall op_wf ops -> Forall not_release ops ->
+  exists pre d, ginv (w_run opt seg meta ops) meta ops pre d.
+Proof. exact w_run_ginv. Qed.
+Print Assumptions C05_directory_is_described.
 
 (* ---------- the full statement and why only parts of it are theorems ----------
    Spec.C05_full: for every history, every crash image (cut + zero fill or short file at any offset behind
